@@ -316,7 +316,7 @@ def wit_str(v):
         for key in ("H", "T", "Ih", "It", "I"):
             if key in w:
                 parts.append(f"{key}={{{', '.join(sorted(atom(a) for a in w[key]))}}}")
-        for key in ("anthem", "reference", "env", "note"):
+        for key in ("anthem", "reference", "env", "note", "axiom", "pair", "renamed", "got", "expected", "symbols", "vars", "error", "used"):
             if key in w and w[key] not in ([], "", {}):
                 parts.append(f"{key}={env(w[key]) if key == 'env' else w[key]}")
     else:
